@@ -58,7 +58,7 @@ def ragged_cases(rng, n, seed, hops=None):
     for k in range(n):
         yield {'kind': 'stale', 'numtype': rng.choice(gens.T13), 'bo': rng.choice(gens.BO),
                'atom': list(rng.choice([(), (), (2,), (1, 2)])), 'nsub': rng.choice([0, 1, 2, 3, 6, 7]),
-               'steps': [s for s in steps_for(rng, hops=hops) if s not in ('x:set', 'h:set', 'x:recreate_samesize', 'x:md_clear', 'h:md')]
+               'steps': [s for s in steps_for(rng, hops=hops) if s not in ('x:set', 'h:set', 'x:md_clear', 'h:md')]
                or ['x:app', 'h:app'],
                'vseed': f'{seed}:sr{k}'}
 
@@ -241,6 +241,15 @@ def run_ragged(env, res, case):
                     model = model + [s]
                 elif step == 'x:md':
                     D.RaggedArray(path, accessmode='r+').metadata['k'] = rng.randint(0, 9)
+                elif step == 'x:recreate_samesize':
+                    # same byte size of the values (and indices) file, other interpretation of the bytes
+                    cands = [t for t in SAMESIZE[dtype.itemsize] if np.dtype(t).kind != dtype.kind] or SAMESIZE[dtype.itemsize]
+                    dtype = gens.dt(rng.choice(cands), rng.choice(gens.BO))
+                    model = [gens.random_values(rng, dtype, m.shape) for m in model]
+                    if model:
+                        D.asraggedarray(path, model, dtype=dtype, overwrite=True, accessmode='r+')
+                    else:
+                        D.create_raggedarray(path, atom=atom, dtype=dtype, overwrite=True, accessmode='r+')
                 elif step == 'x:recreate_other':
                     dtype = gens.dt(rng.choice(gens.T13), rng.choice(gens.BO))
                     atom = tuple(rng.choice([(), (2,), (3,), (1, 2)]))
